@@ -236,7 +236,21 @@ fn cframe(r: &mut Rng) -> CFrame {
                     _ => Vector3::new(0.0, 0.0, v),
                 }
             };
-            Matrix3::new(axis(r), axis(r), axis(r))
+            match r.below(3) {
+                0 => Matrix3::new(axis(r), axis(r), axis(r)),
+                // The same with columns drawn independently (two columns may then
+                // lie on one axis, which no permutation matrix allows).
+                1 => Matrix3::new(axis(r), axis(r), axis(r)).transpose(),
+                // Every entry drawn on its own from values that count as 0 or +-1.
+                _ => {
+                    let e = |r: &mut Rng| *r.pick(&[0.0f32, 0.0, 1.0, -1.0, f32::EPSILON / 2.0]);
+                    Matrix3::new(
+                        Vector3::new(e(r), e(r), e(r)),
+                        Vector3::new(e(r), e(r), e(r)),
+                        Vector3::new(e(r), e(r), e(r)),
+                    )
+                }
+            }
         }
         _ => Matrix3::new(v3(r), v3(r), v3(r)),
     };
